@@ -543,6 +543,12 @@ silent('s-gr8d-load-only-parents', ['C14'], 'the same fast path without atom: op
 fire('par13-pop-then-recurse', ['C06', 'C02'], ['PAR-13'], 'the reduce loop of _add_token becomes pop-and-call-yourself (rt6-C06)',
      (PARSER, "                if stack[-1].dfa.is_final:\n                    self._pop()\n                else:", "                if stack[-1].dfa.is_final:\n                    self._pop()\n                    return self._add_token(token)\n                else:"))
 
+# GEN-3 verdict expressions
+fire('gen3-eq-zips-values', ['C08'], ['GEN-3'], 'DFAState.__eq__ pairs arc targets by position (rt6-C08)',
+     (GEN, "        for label, next_ in self.arcs.items():\n            if next_ is not other.arcs.get(label):\n                return False\n        return True", "        if self.arcs.keys() != other.arcs.keys():\n            return False\n        return all(a is b for a, b in zip(self.arcs.values(), other.arcs.values()))"))
+silent('s-gen3-eq-all-by-label', ['C08'], 'DFAState.__eq__ written with all() over label-keyed lookups',
+       (GEN, "        for label, next_ in self.arcs.items():\n            if next_ is not other.arcs.get(label):\n                return False\n        return True", "        return all(next_ is other.arcs.get(label) for label, next_ in self.arcs.items())"))
+
 # TOK-3 typestate
 fire('tok3-comment-drops-prefix', ['C01', 'C09'], ['TOK-3'], 'a comment inside brackets replaces the pending prefix instead of extending it',
      (TOK, "                else:\n                    additional_prefix = prefix + token\n            elif token in triple_quoted:", "                else:\n                    additional_prefix = token\n            elif token in triple_quoted:"))
